@@ -124,6 +124,11 @@ type DrvRun struct {
 	After          fsx.Snap
 	OutsideChanged string
 	cancelDone     bool
+	// ErrTextAtReturn / ErrChanged: the text of the returned error when the call came back (read inside the run, so the
+	// race monitor sees the reads), and a description if it reads differently at quiescence
+	ErrTextAtReturn string
+	ErrChanged      string
+	errChecked      bool
 	// TreeChanged: the caller's tree (From-Root drivers) renders differently after the call than before it
 	TreeChanged string
 	// ActionsAfterCancel: writes and callbacks that began after the cancellation was complete
@@ -150,6 +155,16 @@ func (d *Drv) needsFS() bool {
 
 // Finish snapshots and removes the jail (called from Check).
 func (r *DrvRun) Finish() {
+	if r.Err != nil && !r.errChecked {
+		// the error the call returned is the caller's from then on: at quiescence it still says what it said at return
+		r.errChecked = true
+		func() {
+			defer func() { recover() }()
+			if now := r.Err.Error(); now != r.ErrTextAtReturn {
+				r.ErrChanged = fmt.Sprintf("at return: %q, after the call's goroutines have finished: %q", r.ErrTextAtReturn, now)
+			}
+		}()
+	}
 	if r.jail != nil {
 		all := fsx.Snapshot(r.jail.Root)
 		r.After = all.Under("p/q/target")
@@ -311,6 +326,9 @@ func (r *DrvRun) Body() {
 		rd.release.Close() // the call is back: the producer goes away, whoever still reads sees the end of input
 	}
 	r.Err = err
+	if err != nil {
+		r.ErrTextAtReturn = err.Error()
+	}
 	r.Out = w.buf.String()
 	r.Returned = true
 	r.CancelSeen = r.cancelDone
